@@ -14,12 +14,20 @@
 using namespace bfl;
 using namespace Eigen;
 
+// Every callback first gives the "intruder" (common.hpp) a chance to run a complete, unrelated correction on another
+// KFCorrection object: user code called back by the library may itself use the library.
 struct ServedLTI : public LTIMeasurementModel {
     MatrixXd y_;
+    bool intrudes_ = false;
     ServedLTI(const MatrixXd& H, const MatrixXd& R, const MatrixXd& y) : LTIMeasurementModel(H, R), y_(y) {}
     void set(const MatrixXd& H, const MatrixXd& R, const MatrixXd& y) { H_ = H; R_ = R; y_ = y; }
-    bool freeze(const Data&) override { return true; }
-    std::pair<bool, Data> measure(const Data&) const override { return std::make_pair(true, Data(y_)); }
+    void hook() const { if (intrudes_) vf::intrude(); }
+    bool freeze(const Data&) override { hook(); return true; }
+    std::pair<bool, Data> measure(const Data&) const override { hook(); return std::make_pair(true, Data(y_)); }
+    std::pair<bool, MatrixXd> getNoiseCovarianceMatrix() const override { hook(); return LTIMeasurementModel::getNoiseCovarianceMatrix(); }
+    MatrixXd getMeasurementMatrix() const override { hook(); return LTIMeasurementModel::getMeasurementMatrix(); }
+    std::pair<bool, Data> predictedMeasure(const Ref<const MatrixXd>& x) const override { hook(); return LTIMeasurementModel::predictedMeasure(x); }
+    std::pair<bool, Data> innovation(const Data& p, const Data& m) const override { hook(); return LTIMeasurementModel::innovation(p, m); }
 };
 
 int main() {
@@ -32,11 +40,27 @@ int main() {
         const long extra = c.mi("extra", 0);     // additional components of the output object (frame)
         const long alias = c.mi("alias", 0);     // correct(g, g): the output object is the input object
         std::unique_ptr<GaussianMixture> corr_keep;   // reused across steps while the shape allows it
+        // intrude=1: during every callback of the subject's measurement model an independent twin filter (its own
+        // KFCorrection object and model, other H / R / y / belief of the same shapes) runs a complete correction
+        const bool intrude = c.mi("intrude", 0) != 0;
+        served->intrudes_ = intrude;
+        ServedLTI* twin_served = new ServedLTI(c.mat("H_s0"), c.mat("R_s0"), c.mat("y_s0"));
+        KFCorrection twin((std::unique_ptr<LinearMeasurementModel>(twin_served)));
         for (long t = 0; t < steps; t++) {
             const std::string s = "_s" + std::to_string(t);
             const MatrixXd& means = c.mat("means" + s); const MatrixXd& covs = c.mat("covs" + s);
             served->set(c.mat("H" + s), c.mat("R" + s), c.mat("y" + s));
             const long n = means.rows(), comps = means.cols();
+            if (intrude) {
+                const MatrixXd H2 = -1.75 * c.mat("H" + s).array() + 0.375, R2 = 3.0 * c.mat("R" + s), y2 = 0.5 * c.mat("y" + s).array() - 1.0;
+                const MatrixXd m2 = 0.5 * means.array() + 1.0, P2 = 2.0 * covs;
+                vf::set_intruder([=, &twin]() {
+                    twin_served->set(H2, R2, y2);
+                    GaussianMixture p2(comps, n), c2(comps, n);
+                    p2.mean() = m2; p2.covariance() = P2;
+                    twin.freeze_measurements(); twin.correct(p2, c2); twin.getLikelihood();
+                });
+            }
             GaussianMixture pred(comps, n);
             pred.mean() = means; pred.covariance() = covs;
             if (c.has_mat("weights" + s)) pred.weight() = c.mat("weights" + s);
@@ -75,6 +99,8 @@ int main() {
                 frame = frame && vf::bit_equal(corr.mean(i), corr_before.mean(i)) && vf::bit_equal(corr.covariance(i), corr_before.covariance(i));
             vf::out_int("frame_kept" + s, frame ? 1 : 0);
         }
+        if (intrude) vf::out_int("intruder_calls", vf::intruder_state().calls);
+        vf::clear_intruder();
         vf::out_end();
     }
     return 0;
